@@ -281,6 +281,10 @@ class Session:
             return "  " + ROUTES[route][0]
         if task == "generate_next_steps":
             return "bot " + NEXT_STEP.get(route, "inform something")
+        if task == "v2_user_intent":
+            return "user expressed greeting" if route == "predef" else "user asked something else"
+        if task == "v2_flow_continuation":
+            return f'bot provide answer\nbot action: bot say "{mk_llm(turn, k)} {body}"'
         if task == "generate_bot_message":
             return f'  "{mk_llm(turn, k)} {body}"'
         if task in ("self_check_input", "self_check_output"):
@@ -334,7 +338,8 @@ SELF_CHECK_PROMPTS = [
     },
 ]
 
-GENERATION_TASKS = ("generate_user_intent", "generate_next_steps", "generate_bot_message", "general")
+GENERATION_TASKS = ("generate_user_intent", "generate_next_steps", "generate_bot_message", "general", "v2_user_intent", "v2_flow_continuation")
+MESSAGE_TASKS = ("generate_bot_message", "general", "v2_flow_continuation")  # tasks whose answer carries a bot message text
 
 
 def classify_prompt(prompt):
@@ -345,6 +350,11 @@ def classify_prompt(prompt):
         return "self_check_input"
     if prompt.startswith("VF-SELF-CHECK-OUTPUT"):
         return "self_check_output"
+    tail = prompt.rstrip()
+    if tail.endswith("user intent:") and "# These are the most likely user intents:" in prompt:
+        return "v2_user_intent"  # generate_user_intent_from_user_action (llm continuation)
+    if tail.endswith("bot intent:"):
+        return "v2_flow_continuation"  # generate_flow_continuation
     if "# This is how the user talks:" in prompt:
         return "generate_user_intent"
     if "# This is how the bot thinks:" in prompt:
